@@ -755,7 +755,8 @@ Definition senc_parse (fl cnt : N) (raw : list N) (iv_in : N) : res (bool * N * 
     let left := lenN raw mod 4294967296 in
     if negb (has fl 2) then
       let iv := if iv_in =? 0 then (left / cnt) mod 256 else iv_in in
-      if left <? iv * cnt then Ok (false, 0, 0, 0, 0)
+      (* /repo 4cf4f8b: uint64(perSampleIVSize)*uint64(SampleCount) != uint64(nrBytesLeft): the IVs must fill the data exactly *)
+      if negb (iv * cnt =? left) then Ok (false, 0, 0, 0, 0)
       else
         let nrIVs := if iv =? 0 then 0 else cnt in
         if iv =? 0 then Ok (true, 0, 0, 24 * nrIVs, 0)
